@@ -5,3 +5,22 @@ pattern("src/serde_2026/mod.rs", r"SERDE_2026_MAGIC_PREFIX\s*:\s*\[u8;\s*6\]\s*=
         "[253, 255, 50, 48, 50, 54]", "SERDE_2026_MAGIC_PREFIX",
         conv=lambda s: "[" + ", ".join(str(ord(x.strip()[2]) if x.strip().startswith("b'") else int(x.strip(), 0)) for x in s.split(",")) + "]",
         ty="List Nat")
+
+def _rust_int(s):
+    s = s.strip()
+    table = {"i32::MAX as usize": 2**31 - 1, "u32::MAX as usize": 2**32 - 1, "i32::MAX": 2**31 - 1, "u32::MAX": 2**32 - 1}
+    if s in table:
+        return table[s]
+    return num(s)
+
+# `const MAX_INDEX: usize = i32::MAX as usize;`
+pattern("src/serde_2026/mod.rs", r"const\s+MAX_INDEX\s*:\s*usize\s*=\s*([^;]+);", "maxIndex2026", 2**31 - 1,
+        "const MAX_INDEX", conv=_rust_int)
+# `Direction::cons_opcode`
+pattern("src/serde_2026/strategy.rs", r"Direction::LeftFirst\s*=>\s*(-?\d+)\s*,", "consOpcodeLeftFirst", 1,
+        "cons_opcode LeftFirst", conv=lambda s: int(s), ty="Int")
+pattern("src/serde_2026/strategy.rs", r"Direction::RightFirst\s*=>\s*(-?\d+)\s*,", "consOpcodeRightFirst", -1,
+        "cons_opcode RightFirst", conv=lambda s: int(s), ty="Int")
+# default heap limit of `intern_tree` (`intern_tree_limited(source, node, u32::MAX as usize)`)
+pattern("src/serde/intern.rs", r"pub fn intern_tree\(.*?intern_tree_limited\(source,\s*node,\s*([^)]+)\)", "internTreeHeapLimit",
+        2**32 - 1, "intern_tree heap limit", conv=_rust_int)
